@@ -96,7 +96,11 @@ static uint64_t PHASE = 1;
 static size_t HORIZON = 100000;
 struct HorizonHit {};
 
-static const double NME[7] = {0.9, -0.15, 1.1, -0.25, 0.07, 0.4, 0.8}; // chi_GTw, chi_Fw, chi'_GT, chi'_F, chi'_T, chi'_P, chi'_R
+// chi_GTw, chi_Fw, chi'_GT, chi'_F, chi'_T, chi'_P, chi'_R. Two sets: with chi'_R != 0 the 1/r^2 terms dominate and cancel between
+// a_eta and b_eta (the angular coefficient hardly depends on the Coulomb term rksi); with chi'_R = 0 it depends on it strongly
+static const double NME_SETS[2][7] = {{0.9, -0.15, 1.1, -0.25, 0.07, 0.4, 0.8}, {0.9, -0.15, 1.1, -0.25, 0.07, 0.4, 0.0}};
+static int NME_SET = 0;
+#define NME NME_SETS[NME_SET]
 
 // ---------------------------------------------------------------- model side
 static double ref_source(size_t pos, void * c) { return ((vx::Source *)c)->at(pos); }
